@@ -209,3 +209,24 @@ Print Assumptions C03_line_comment_check_iff.
 Example C03_block_comment_example :
   block_comment_check 5 3 (s "/* a" ++ 10%N :: repeat 120%N 81 ++ 10%N :: s "*/") = [6%Z].
 Proof. exact block_comment_example. Qed.
+
+(* ---- the LENGTH that CheckCommentLineLen measures is a visual width: for comment text without newline, backslash,
+   ?, <, : and % (nothing spliced or respelt) the documented normalisation of C10 (tabs expanded at the true column)
+   makes c0 - 1 + len(first line of the value) the visual column of that line's last character, and len(later line)
+   its visual width (col_after = the independent position scanner of Spec/TruePos) *)
+From NV Require Import Spec.Normalise Proofs.CommentValueWidth.
+
+Theorem C03_comment_value_length_is_visual_width : forall r fuel c, forallb plainc r = true -> (List.length r < fuel)%nat ->
+  (c + zl (normalise_from fuel true c r) = col_after c r)%Z.
+Proof. exact normalise_plain_width. Qed.
+Print Assumptions C03_comment_value_length_is_visual_width.
+
+Theorem C03_comment_first_line_len_is_end_column : forall r c0, forallb plainc r = true ->
+  ((c0 - 1) + zl (normalise true c0 r) = col_after c0 r - 1)%Z.
+Proof. exact comment_first_line_len_is_end_column. Qed.
+Print Assumptions C03_comment_first_line_len_is_end_column.
+
+Theorem C03_comment_later_line_len_is_width : forall r, forallb plainc r = true ->
+  (zl (normalise true 1 r) = col_after 1 r - 1)%Z.
+Proof. exact comment_later_line_len_is_width. Qed.
+Print Assumptions C03_comment_later_line_len_is_width.
